@@ -88,6 +88,24 @@ def search(res, tier, boost=False):
         bad = [b for b in oracle_mesh(pm.mesh, X, T, glue, check_nbrs=True) if b.startswith(('neighbours', 'flags', '1-irregular'))]
         if bad:
             res.violation('C10:' + bad[0].split(':')[0] + ':deep', dict(clause=bad[0], history=hist))
+    # the closed/open flag read off data (numpy.bool_, e.g. closed = np.all(v[0] == v[-1])): the same mesh as with a Python bool
+    import numpy as _np
+    for h in range((4 if tier == 'quick' else 30) * (3 if boost else 1)):
+        glue, X, T = INITIAL_GRIDS[rng.randrange(len(INITIAL_GRIDS))]
+        pm = PyMesh.create(glue, X, T, flag_type=_np.bool_)
+        ops = []
+        for k in range(rng.randint(0, 8)):
+            op = random_op(rng, pm, ['rt', 'rs', 'rb'], 0.5)
+            ops.append(op)
+            if pm.apply(op).startswith('err'):
+                res.violation('C10:refinement-raises:numpy-bool-flag', dict(history=dict(glue=glue, X=[str(x) for x in X], T=[str(t) for t in T], ops=[list(o) for o in ops])))
+                break
+        res.count(('numpy-bool-flag', h, glue, len(ops)), bool(glue))
+        bad = [b for b in oracle_mesh(pm.mesh, X, T, glue, check_nbrs=True) if b.startswith(('neighbours', 'flags', '1-irregular'))]
+        if bad:
+            res.violation('C10:' + bad[0].split(':')[0] + ':numpy-bool-flag',
+                          dict(clause=bad[0], history=dict(glue_space='numpy.bool_(%s)' % bool(glue), X=[str(x) for x in X], T=[str(t) for t in T],
+                                                           ops=[list(o) for o in ops])))
     n = (6 if tier == 'quick' else 60) * (3 if boost else 1)
     for h in range(n):
         glue, X, T = INITIAL_GRIDS[rng.randrange(len(INITIAL_GRIDS))]
